@@ -442,4 +442,24 @@ theorem excState_crashState (F : Flags) (rm : Bool) (d0 : Disk) (trace : List Op
   rw [excState_nil]
   exact Or.inr ⟨k, hk, Nat.le_refl _, rfl⟩
 
+/-! ### `compute_caps()` inside the trace -/
+
+theorem runSegs_nil_tail (F : Flags) (h : F.computeCapsTail = []) (w : W) (segs : List (List Cmd)) :
+    runSegs F w segs = runCmds w segs.flatten := by
+  induction segs generalizing w with
+  | nil => rfl
+  | cons seg r ih =>
+    simp only [runSegs, capsTail, h, List.foldl_nil, List.flatten_cons]
+    rw [ih, runCmds_append]
+
+/-- when `compute_caps()` writes no attribute, a writer that calls it (any number of times,
+    with further writes in between and after) is the plain writer of all its `set_*` calls -/
+theorem writerSegW_eq_writerW (F : Flags) (h : F.computeCapsTail = []) (env : Env) (d : Disk)
+    (mode : String) (m : Meta) (segs : List (List Cmd)) (rest : List Cmd) (close : Bool) :
+    writerSegW F env d mode m segs rest close = writerW F env d mode m (segs.flatten ++ rest) close := by
+  unfold writerSegW writerW
+  cases createFile F env d mode m with
+  | error e => rfl
+  | ok w => simp only [runSegs_nil_tail F h, runCmds_append]
+
 end OQuPyVerif.PTFile
